@@ -579,6 +579,51 @@ def gen_C04(w, tier):
                 return None
             sc.pred = pred_t
             out.append(sc)
+    # the same after one rejected draw, on groups whose scalars need two bytes: all (rejected first candidate,
+    # accepted second candidate) tapes -- every subgroup element must come out for the same number of tapes
+    for name, ps in w.ps.items():
+        if not ps.toy or ps.base or ps.kind != "int" or ps.ssize != 2:
+            continue
+        bits = (ps.q - 1).bit_length()
+        rejected = list(range(ps.q, 1 << bits))
+        if not rejected or len(rejected) * ps.q > (3000 if not big else 20000):
+            rejected = rejected[:max(1, (3000 if not big else 20000) // ps.q)]
+        if not rejected:
+            continue
+        pw = toy_passwords(w, ps)[-1]
+        sc = w.scenario("C04/%s/tapes-after-rejection/S" % name, ("entropy-tapes", "rejection", "side:S"))
+        idx = []
+        for rj in rejected:
+            for x in range(ps.q):
+                s_ = sc.new("S", ps, pw, b"", b"", rj.to_bytes(2, "big") + x.to_bytes(2, "big") + b"\x00\x00", EXACT)
+                idx.append(len(sc.lines))
+                sc.start(s_, EXACT)
+        sc.meta.update(idx=idx, q=ps.q, n=len(rejected))
+
+        def pred_r(io, sc):
+            counts = {}
+            for i in sc.meta["idx"]:
+                m = payload(io[i])
+                if m is not None:
+                    counts[m] = counts.get(m, 0) + 1
+            if len(counts) != sc.meta["q"] or set(counts.values()) != {sc.meta["n"]}:
+                return "over all (rejected candidate, accepted candidate) entropy tapes the messages are not uniform on the subgroup: %d distinct of %d, counts %s" % (
+                    len(counts), sc.meta["q"], sorted(set(counts.values()))[:6])
+            return None
+        sc.pred = pred_r
+        out.append(sc)
+    # shipped groups: one rejected draw, then an accepted one (the second candidate must be entirely fresh bytes)
+    for name in ("1024", "2048", "3072"):
+        if name not in w.ps or (name != "1024" and not big):
+            continue
+        ps = w.ps[name]
+        sc = w.scenario("C04/%s/after-rejection" % name, ("rejection", "set:" + name))
+        for x in [0, 1, ps.q - 1, r.randrange(ps.q), r.randrange(ps.q)]:
+            for redraws in (1, 2):
+                s_ = sc.new("ABS"[x % 3], ps, b"pw", b"", b"", w.entropy_for(ps, x, redraws=redraws), EXACT)
+                sc.start(s_, EXACT)
+                sc.do("entleft %d" % s_)
+        out.append(sc)
     # shipped groups: msg - w*M == x*G, and the identity strings never influence the message
     for name, ps in w.ps.items():
         if ps.toy or ps.base:
@@ -628,6 +673,7 @@ def gen_C06(w, tier):
     sets = [w.ps[k] for k in ("ed", "1024", "toy2039_1019_4", "toyed389", "2048", "3072") if k in w.ps]
     if not big:
         sets = sets[:4]
+    zero_lead = {}
     for ps in sets:
         # a valid peer element (so that only the side byte decides)
         peer = {}
@@ -660,6 +706,42 @@ def gen_C06(w, tier):
                             s2 = sc.cycle(s2, side, ps)
                         o2 = sc.finish(s2, bytes([v]) + own[1:])
                         rec.append(("reflect", v, o2))
+                # reflection of the instance's own element in another spelling of the same number (integer groups:
+                # leading zero byte stripped / one more added); needs an own element that begins with a zero byte
+                if ps.kind == "int":
+                    xz = zero_lead.get(ps.name)
+                    if xz is None:
+                        t = w.scenario("C06/peer", ())
+                        xz = 0
+                        for x_ in range(1, 60 if ps.toy else (700 if not big else 3000)):
+                            p_ = t.new("S", ps, b"pw", b"", b"", w.entropy_for(ps, x_), NONE)
+                            m_ = payload(t.start(p_, NONE))
+                            if m_ is not None and len(m_) > 2 and m_[1] == 0 and any(m_[2:]):
+                                xz = x_
+                                break
+                        zero_lead[ps.name] = xz
+                    if xz:
+                        for v in (0x41, 0x42, 0x53):
+                            for variant in ("strip", "pad"):
+                                s4 = sc.new(side, ps, b"pw", b"", b"", w.entropy_for(ps, xz if side == "S" else 5))
+                                own = payload(sc.start(s4))
+                                if side != "S":
+                                    # for A/B the element depends on the role's blinding element: search again, cheaply
+                                    for x_ in range(1, 60 if ps.toy else 700):
+                                        t = w.scenario("C06/peer", ())
+                                        p_ = t.new(side, ps, b"pw", b"", b"", w.entropy_for(ps, x_), NONE)
+                                        m_ = payload(t.start(p_, NONE))
+                                        if m_ is not None and len(m_) > 2 and m_[1] == 0 and any(m_[2:]):
+                                            s4 = sc.new(side, ps, b"pw", b"", b"", w.entropy_for(ps, x_))
+                                            own = payload(sc.start(s4))
+                                            break
+                                    else:
+                                        continue
+                                if restored:
+                                    s4 = sc.cycle(s4, side, ps)
+                                body = own[1:].lstrip(b"\x00") if variant == "strip" else b"\x00" + own[1:]
+                                o4 = sc.finish(s4, bytes([v]) + body)
+                                rec.append(("reflect-variant", v, o4))
                 # the same frames delivered as a bytearray (bytes-like objects are accepted by the library)
                 # (Ed25519 only: IntegerGroup.bytes_to_element insists on `bytes`)
                 for v in ((0x41, 0x42, 0x53, 0x5a) if ps.kind == "ed" else ()):
@@ -675,6 +757,10 @@ def gen_C06(w, tier):
                     side = sc.meta["side"]
                     peer_b = {"A": 0x42, "B": 0x41, "S": 0x53}[side]
                     for t in sc.meta["rec"]:
+                        if t[0] == "reflect-variant":
+                            if t[2].startswith("ok"):
+                                return "own element reflected in another spelling (leading zero byte stripped / added) under label %#x returned a key" % t[1]
+                            continue
                         if t[0] == "reflect":
                             _, v, o = t
                             if o.startswith("ok"):
